@@ -182,7 +182,7 @@ Definition single_item (s : cst) (name : text) (v : cval) : cst :=
                 | None => s
                 end
     end
-  else if starts_with "atom_sites.Cartn_transf" name then
+  else if starts_with "atom_sites.Cartn_transf_" name then
     let m := match k_scale s with Some m => m | None => identity12 end in
     let '(m', e) := parse_matrix name (get_f64 v) m in
     k_err (k_set_scale s (Some m')) e
